@@ -98,8 +98,9 @@ def gen(rng, tier):
         cases.append({"kind": "udp_live", "host": host, "body": sized_datagram(rng, size).hex()})
     # a burst of datagrams while the pipeline stalls inside the first one (back-pressure): the later datagrams arrive while
     # the first is still being scanned in 4 KiB steps; every datagram is still its own stream, in arrival order
+    # (what waits in the socket stays far below the default receive buffer of 208 KiB, so nothing is dropped by the kernel)
     for sizes in ([6000, 300, 9000], [9000, 7000, 8000, 5000], [20000, 100, 100, 100, 12000], [4097, 4097, 4097],
-                  [rng.randrange(4200, 16000) for _ in range(rng.choice([3, 4, 5]))]):
+                  [rng.randrange(4200, 9000) for _ in range(rng.choice([3, 4]))]):
         cases.append({"kind": "udp_burst", "stall_ms": 120,
                       "bodies": [sized_datagram(rng, sz, tag=b"d%d" % j).hex() for j, sz in enumerate(sizes)]})
     for L in (10, 4094, 4095, 4096, 4097, 4098, 8191, 8192, 9000):
